@@ -28,6 +28,9 @@ func fnShort(fn *ssa.Function) string {
 }
 
 func dynFieldName(u *ssa.UnOp) string {
+	if al, ok := u.X.(*ssa.Alloc); ok && al.Comment != "" {
+		return al.Comment // a function value held in a (captured) local variable
+	}
 	fa, ok := u.X.(*ssa.FieldAddr)
 	if !ok {
 		return ""
@@ -482,18 +485,25 @@ func (g *Gen) enterLoop(li *loopInfo) *State {
 	}
 	// state at the header: merge of entries, then havoc what the loop changes
 	st := g.mergeNoPhi(b, entries)
+	g.fnFresh = false
 	comps, dirty, all, locals := g.loopMods(li)
 	if all {
 		g.havocAll(st)
 	} else {
 		oldAlloc := g.heapGet(st, "alloc")
+		keepBound := oldAlloc
+		if g.fnFresh {
+			// some writes go to objects this function allocated before the loop: only objects
+			// that existed at function entry are known to be unchanged
+			keepBound = g.heapGet(g.entry, "alloc")
+		}
 		for _, c := range sortedBoolKeys(comps) {
 			old := g.heapGet(st, c)
 			g.havocComp(st, c)
 			if c != "alloc" && !dirty[c] && strings.HasPrefix(g.compSort(c), "(Array Int ") {
 				// only objects allocated inside the loop are written: older objects keep their value
 				nw := g.heapGet(st, c)
-				g.emit(fmt.Sprintf("(assert (forall ((fr Int)) (! (=> (<= fr %s) (= (select %s fr) (select %s fr))) :pattern ((select %s fr)))))", oldAlloc, nw, old, nw))
+				g.emit(fmt.Sprintf("(assert (forall ((fr Int)) (! (=> (<= fr %s) (= (select %s fr) (select %s fr))) :pattern ((select %s fr)))))", keepBound, nw, old, nw))
 			}
 		}
 		if comps["alloc"] {
@@ -687,6 +697,9 @@ func (g *Gen) scopeBlock(b *ssa.BasicBlock, vars map[string]Val, st *State) {
 				continue
 			}
 			if obj, ok := x.Object().(*types.Var); ok && obj != nil && !obj.IsField() {
+				if cur, bound := vars[obj.Name()]; bound && cur.Lazy {
+					continue // an address-taken variable is read from its cell, not from a stale load
+				}
 				if v, ok := g.tryVal(x.X); ok && v.Loc == nil && v.S != "" {
 					vars[obj.Name()] = v
 				}
